@@ -15,14 +15,14 @@ def s1 : SymRef := ⟨1, false⟩
 def tStr : Nat := 100
 def tInt : Nat := 101
 /-- `class K0: def __init__(self)` -/
-def f0 : Factory := ⟨0, 0, []⟩
+def f0 : Factory := ⟨0, 0, [], false⟩
 /-- `class K15` without `__init__` -/
-def f15 : Factory := ⟨15, 15, []⟩
+def f15 : Factory := ⟨15, 15, [], false⟩
 /-- two closures of one `def clo(x: T_)`: same qualified name, two function objects, annotations `S0` / `S1` -/
-def f8 : Factory := ⟨8, 8, [some s0]⟩
-def f9 : Factory := ⟨9, 9, [some s1]⟩
+def f8 : Factory := ⟨8, 8, [some s0], false⟩
+def f9 : Factory := ⟨9, 9, [some s1], false⟩
 /-- `def fn18(s: str)` -/
-def f18 : Factory := ⟨18, 18, [some ⟨tStr, false⟩]⟩
+def f18 : Factory := ⟨18, 18, [some ⟨tStr, false⟩], false⟩
 
 /-- Forward simulation: from every reachable state, every op changes the abstract state exactly as `specStep`
     prescribes and produces the same output. -/
@@ -260,7 +260,7 @@ theorem fuel_sufficient (fuel : Nat) (ops : List Op) (c : Nat) (rk : Nat → Nat
 
 /-- non-vacuity: `S1 ↦ K1(a: S0)`, `S0 ↦ K0()` is ranked by `rk s = s`; fuel 2 > rk S1 resolves, fuel 1 does not -/
 example :
-    let k1 : Factory := ⟨1, 1, [some s0]⟩
+    let k1 : Factory := ⟨1, 1, [some s0], false⟩
     let ops : List Op := [.newDI, .on 0 (.bind s1 k1), .on 0 (.bind s0 f0)]
     (∀ op ∈ ops, op.BindsP (RankP (fun s => s))) ∧
     (step 2 (run 2 State.init ops).1 (.on 0 (.resolve s1))).2 = .obj ⟨1, 1, [.inst 0]⟩ ∧
@@ -272,6 +272,60 @@ example :
   · trivial
   · intro a ha; simp [pluck, pluckA, Factory.annotated, s0] at ha; subst ha; decide
   · intro a ha; simp [pluck, pluckA, Factory.annotated, f0] at ha
+
+/-! ### factories whose body raises -/
+
+/-- `invoke` of a factory whose body raises never returns an object and creates none (the instance counter only moves
+    for the dependencies that were resolved on the way) -/
+theorem invoke_raising (fuel : Nat) (ops : List Op) (c : Nat) (f : Factory) (args : List Arg) (o : Obj) (hf : f.raises = true) :
+    (step fuel (run fuel State.init ops).1 (.on c (.invoke f args))).2 ≠ .obj o := by
+  have w0 := reach_wf fuel ops
+  rw [step_out w0]
+  simp only [specStep]
+  cases (abs (run fuel State.init ops).1).conts[c]? with
+  | none => simp
+  | some sc =>
+    simp only [sStepCont, sInvokeF]
+    cases hres : (sInvokeFill (sResolveF fuel) sc (abs (run fuel State.init ops).1).next f args).2.2 with
+    | error e => simp [outObj, hres]
+    | ok o' => exact absurd hres (sInvokeFill_raising (sResolveF fuel) sc _ f args hf o')
+
+/-- `resolve` of a symbol bound (or lazily defined) to a factory whose body raises: the call fails, *nothing is stored
+    for the symbol* and its binding stays — so the next resolve calls the factory again, at any nesting depth and
+    whatever else the failed attempt resolved on the way. -/
+theorem resolve_raising (fuel : Nat) (ops : List Op) (c : Nat) (r : SymRef) (e : SEntry) (f : Factory) (o : Obj)
+    (he : look (abs (run fuel State.init ops).1) c r.accept = some e) (hi : e.inst = none) (hl : e.inj.load = .ok f)
+    (hf : f.raises = true) :
+    (step fuel (run fuel State.init ops).1 (.on c (.resolve r))).2 ≠ .obj o ∧
+    ∃ e', look (abs (step fuel (run fuel State.init ops).1 (.on c (.resolve r))).1) c r.accept = some e' ∧
+      e'.inst = none ∧ e'.inj.load = .ok f := by
+  have w0 := reach_wf fuel ops
+  rw [step_out w0, step_abs w0]
+  simp only [specStep]
+  cases hc : (abs (run fuel State.init ops).1).conts[c]? with
+  | none => simp [look, hc] at he
+  | some sc =>
+    have hsc : sc.ents r.accept = some e := by simpa [look, hc] using he
+    obtain ⟨hq, hno⟩ := sResolveF_Q (s := r.accept) hf fuel sc (abs (run fuel State.init ops).1).next r ⟨e, hsc, hi, hl⟩
+    simp only [sStepCont]
+    rcases hres : sResolveF fuel sc (abs (run fuel State.init ops).1).next r with ⟨sc', nx', res⟩
+    rw [hres] at hq hno
+    constructor
+    · cases res with
+      | error err => simp [outObj]
+      | ok o' => exact absurd rfl (hno rfl o')
+    · obtain ⟨e', h1, h2, h3⟩ := hq
+      exact ⟨e', by rw [look_set_self _ c sc _ _ _ hc]; exact h1, h2, h3⟩
+
+/-- non-vacuity and the retry: `S1 ↦ k(a: S0)` whose body raises, `S0 ↦ K0`; the first resolve creates the `S0` instance and
+    fails, the second fails again (the factory is called again), the instance of `S0` is there; a lazily defined raising
+    factory is materialised and fails alike; after a rebind to a healthy factory the symbol resolves -/
+example :
+    let k : Factory := ⟨30, 30, [some s0], true⟩
+    (run 4 State.init [.newLazy [(2, .named 7 k)], .on 0 (.bind s0 f0), .on 0 (.bind s1 k), .on 0 (.resolve s1), .on 0 (.resolve s1),
+      .on 0 (.resolve s0), .on 0 (.resolve ⟨2, false⟩), .on 0 (.invoke k []), .on 0 (.rebind s1 f15), .on 0 (.resolve s1)]).2
+    = [.cont 0, .ok, .ok, .err .notImplemented, .err .notImplemented, .obj ⟨0, 0, []⟩, .err .notImplemented, .err .notImplemented,
+       .ok, .obj ⟨1, 15, []⟩] := by decide
 
 /-! ### how tranp uses the container: one shared container, one combined container per module
     (providers/app.py `di_container`, providers/syntax/entrypoints.py `handler`) -/
@@ -397,10 +451,10 @@ theorem module_invoker_local (fuel : Nat) (pre mid : List Op) (R : Roles) (s n :
 def miniR : Roles := ⟨10, 11, 12, 3, [0]⟩
 def miniDefs : List (Nat × Injector) := [(0, .named 1 f0), (5, .named 2 f15)]
 def miniDeps : List (Nat × Injector) :=
-  [(1, .named 3 ⟨21, 21, [some ⟨12, false⟩, some ⟨0, false⟩]⟩), (2, .named 4 ⟨22, 22, [some ⟨11, false⟩, some ⟨1, false⟩]⟩),
-   (3, .named 5 ⟨23, 23, [some ⟨2, true⟩]⟩)]
+  [(1, .named 3 ⟨21, 21, [some ⟨12, false⟩, some ⟨0, false⟩], false⟩), (2, .named 4 ⟨22, 22, [some ⟨11, false⟩, some ⟨1, false⟩], false⟩),
+   (3, .named 5 ⟨23, 23, [some ⟨2, true⟩], false⟩)]
 def miniOps : List Op :=
-  diContainerOps miniR 0 miniDefs ++ loadModuleOps miniR 0 1 miniDeps ⟨31, 31, []⟩ ++ loadModuleOps miniR 0 3 miniDeps ⟨32, 32, []⟩
+  diContainerOps miniR 0 miniDefs ++ loadModuleOps miniR 0 1 miniDeps ⟨31, 31, [], false⟩ ++ loadModuleOps miniR 0 3 miniDeps ⟨32, 32, [], false⟩
 
 /-- two loads succeed; module containers are 2 and 4; both entrypoints are built from their own Query / Entry / Invoker -/
 example : (run 8 State.init miniOps).2 =
@@ -484,15 +538,15 @@ theorem production_terminates (fuel : Nat) (ops : List Op) (c : Nat) (r : SymRef
   have hb : ∀ op ∈ ops, op.BindsP (RankP prodRank) := by
     intro op hop
     rcases hops op hop with ⟨n, h⟩ | ⟨s, n, mp, hmp, h⟩ | h
-    · exact (production_acyclic 0 n ⟨0, 0, []⟩ rfl).1 op h
+    · exact (production_acyclic 0 n ⟨0, 0, [], false⟩ rfl).1 op h
     · exact (production_acyclic s n mp hmp).2 op h
     · exact h
   have hr : prodRank r.accept ≤ maxRank := lookup_getD_le rankTable maxRank r.accept (by decide +kernel)
   exact (fuel_sufficient fuel ops c prodRank hb).1 r (by omega)
 
 /-- `lambda: module_path` of two module loads -/
-def mpA : Factory := ⟨9001, 9001, []⟩
-def mpB : Factory := ⟨9002, 9002, []⟩
+def mpA : Factory := ⟨9001, 9001, [], false⟩
+def mpB : Factory := ⟨9002, 9002, [], false⟩
 
 /-- production in the model: `di_container(default_definitions())`, then two `handler(module_path)` calls; the shared
     container is 0, the per-module containers are 2 and 4 -/
